@@ -307,6 +307,12 @@ func Run(ctx *common.Ctx) {
 		lockJobs[k].ID = len(all)
 		all = append(all, lockJobs[k])
 	}
+	// the lock of an instance: every slot operation x instance kind x synchronized or not (fourth correspondence)
+	instProbes := genInstProbes()
+	for k := range instProbes {
+		instProbes[k].Job.ID = len(all)
+		all = append(all, instProbes[k].Job)
+	}
 	// two plain workers side by side
 	half := len(all) / 2
 	var outsA, outsB []jobOutcome
@@ -433,6 +439,33 @@ func Run(ctx *common.Ctx) {
 		distinct["lock:"+lockOps[k].Name] = true
 	}
 
+	var iterms []string
+	var idescs []any
+	for k := range instProbes {
+		ip := &instProbes[k]
+		oc := &outs[len(progs)+len(impls)+len(scopeJobs)+len(lockJobs)+k]
+		ctx.Hist("shape:instance-lock-probe")
+		ctx.Meta.Evaluations++
+		what := map[string]any{"operation": ip.Op, "form": ip.Job.Runs[0], "instance": ip.Kind, "synchronized": ip.Sync}
+		if oc.Res == nil || oc.Res.Err != "" || oc.Res.Hang || !oc.Res.Probed {
+			msg := oc.Crash
+			if oc.Res != nil {
+				msg = fmt.Sprintf("err=%q hang=%v probed=%v", oc.Res.Err, oc.Res.Hang, oc.Res.Probed)
+			}
+			ctx.Violate("instance lock probe: the operation could not be probed", what, msg+"\n"+oc.Stderr, "the operation finishes or waits for the instance lock")
+			continue
+		}
+		if strings.HasPrefix(oc.Res.Value, "error:") {
+			ctx.Violate("instance lock probe: the probed operation raised an error", what, oc.Res.Value, "a value")
+			continue
+		}
+		what["waited_for_the_instance_lock"] = oc.Res.Blocked
+		what["value"] = oc.Res.Value
+		iterms = append(iterms, fmt.Sprintf("(%s, %s, %s)", ip.Op, common.GBool(ip.Sync), common.GBool(oc.Res.Blocked)))
+		idescs = append(idescs, what)
+		distinct[fmt.Sprintf("inst:%s:%s:%v", ip.Op, ip.Kind, ip.Sync)] = true
+	}
+
 	// ---- race-enabled worker: a sample of the model programs, the implementation-only jobs, the witnesses ----
 	raceBin := <-raceCh
 	ctx.Meta.Notes = append(ctx.Meta.Notes, raceCtx.Meta.Notes...)
@@ -520,4 +553,6 @@ func Run(ctx *common.Ctx) {
 	lheader := "From C17 Require Import Model TableModel Corr.\nOpen Scope nat_scope.\n"
 	lfooter := "Definition res := Eval vm_compute in tcheck_all cases.\nPrint res.\nDefinition operations_waiting_for_the_package_mutex := Eval vm_compute in operations_seen_waiting_for_the_package_mutex cases.\nPrint operations_waiting_for_the_package_mutex.\n"
 	ctx.WriteShards("locks", lheader, "tcase", lfooter, lterms, ldescs, 1)
+	ifooter := "Definition res := Eval vm_compute in icheck_all cases.\nPrint res.\nDefinition slot_operations_waiting_for_the_instance_lock := Eval vm_compute in slot_operations_seen_waiting_for_the_instance_lock cases.\nPrint slot_operations_waiting_for_the_instance_lock.\n"
+	ctx.WriteShards("instlocks", lheader, "icase", ifooter, iterms, idescs, 1)
 }
